@@ -33,7 +33,7 @@ def extra_parts(choice, sig):
 def run(chk):
     chk.level = "proof"
     chk.assume("declared annotations of the parts are true (the property's proviso); Hessian symmetry (smooth f) and FFT unitarity are "
-               "dependency facts; Sliced inference is outside the ALG domain (index engine)")
+               "dependency facts; Sliced inference is decided in the index domain (sliced_inference)")
     contracts = dict(CONTRACTS)
     contracts["get_annotations"] = get_annotations
     spec = dict(dtypes=[np.float64, np.complex128], anns=[()], extra=extra_parts, check_annotations=True, only_annotations=True,
@@ -49,6 +49,7 @@ def run(chk):
     from props import c10
     c10.annotation_obligations(chk)      # eig rules: Unitary / Stiefel on the returned n x k eigenvector operator
     krylov_and_svd_outputs(chk)
+    sliced_inference(chk)
     declare_cases(chk)
 
     def replayer(ob):
@@ -90,6 +91,48 @@ def krylov_and_svd_outputs(chk):
         return obs
     for obs in pmap(work, len(tasks)):
         for ob in obs:
+            chk.add(ob)
+
+
+def sliced_one(anns, kr, kc):
+    """get_annotations(Sliced): the REAL rule (through the real Sliced constructor) on symbolic slices / index arrays of a square operator that carries true
+    declarations.  Whatever is reported must be SelfAdjoint / PSD only, and then rows and columns select the SAME index sequence (same length, same source index at
+    every position): S = P^T A P for a selection matrix P, which is Hermitian / PSD whenever A is."""
+    import z3
+    import cola
+    from props import c20, krylov_common as K
+    from vcgen import idx
+    from vcgen.proxy import CTX, iterm
+    from vcgen.rules import sym_dim
+    from cola.ops import operators as O
+
+    def thunk():
+        n = sym_dim("n")
+        A, a = idx.make_abstract_op("A", n, n)
+        A.annotations = {getattr(cola, x) for x in anns}
+        kind = lambda k: ("index", 0, "") if k == "index" else ("slice", 1, "both")  # noqa
+        sr, sc = c20.build_key(kind(kr), "r", n), c20.build_key(kind(kc), "c", n)
+        S = O.Sliced(A=A, slices=(sr, sc))
+        got = sorted(x.__name__ for x in S.annotations)
+        goals = [("whatever is reported is SelfAdjoint / PSD, and only if the sliced operator declared it", z3.BoolVal(set(got) <= ({"SelfAdjoint", "PSD"} & set(anns) | ({"SelfAdjoint"} if "PSD" in anns else set()))))]
+        if got:
+            j = z3.Int(CTX.fresh("j"))
+            ir, lr = c20.src_index(sr, n, j)
+            ic, lc = c20.src_index(sc, n, j)
+            goals.append(("reported SelfAdjoint / PSD: rows and columns select the same index sequence (principal submatrix in the same order)",
+                          z3.And(lr.term == lc.term, z3.Implies(z3.And(j >= 0, j < lr.term), ir == ic))))
+        return goals
+    return K.run_paths(f"C05/get_annotations(Sliced)[rows={kr};cols={kc};declared={'+'.join(anns)}]", "cola.annotations.get_annotations", thunk,
+                       dict(engine="direct", failing_input_found=False, input=f"Sliced of a {anns} operator with {kr} rows and {kc} columns"))
+
+
+def sliced_inference(chk):
+    from vcgen.core import pmap
+    tasks = [(anns, kr, kc) for anns in (("SelfAdjoint",), ("PSD",), ("Unitary",), ("Stiefel",), ("PSD", "Unitary")) for kr in ("index", "slice") for kc in ("index", "slice")]
+    chk.under_contract("cola.annotations.get_annotations[Sliced]")
+    for obs in pmap(lambda i: sliced_one(*tasks[i]), len(tasks)):
+        for ob in obs:
+            ob.engine = "IDX"
             chk.add(ob)
 
 
